@@ -1305,8 +1305,27 @@ class Engine:
         raise EngineError("unary op")
 
     def ex_BoolOp(self, e, st, spec):
-        vals = [self.truthy(self.ev(x, st, spec), st) for x in e.values]
-        return z3.And(*vals) if isinstance(e.op, ast.And) else z3.Or(*vals)
+        """`and` / `or` with Python's short-circuit evaluation: a later operand is evaluated (and its safety obligations
+        are generated) only under the condition that the earlier ones did not decide the result"""
+        is_and = isinstance(e.op, ast.And)
+        vals = []
+        guard = []
+        for k, x in enumerate(e.values):
+            if k == 0 or spec:
+                v = self.truthy(self.ev(x, st, spec), st)
+            else:
+                st2 = st.clone()
+                st2.assume(*guard)
+                npc = len(st2.pc)
+                nraise = len(self.pending_raises)
+                v = self.truthy(self.ev(x, st2, spec), st2)
+                for f in st2.pc[npc:]:
+                    st.assume(z3.Implies(z3.And(*guard), f))
+                for (exc, rst) in self.pending_raises[nraise:]:
+                    rst.assume(*guard)
+            vals.append(v)
+            guard.append(v if is_and else z3.Not(v))
+        return z3.And(*vals) if is_and else z3.Or(*vals)
 
     def ex_IfExp(self, e, st, spec):
         c = self.truthy(self.ev(e.test, st, spec), st)
